@@ -331,6 +331,9 @@ static void op_vec(void)
     else if (!strcmp(op, "SortDecreasing")) { esl_vec_DSortDecreasing(x, n); out_dvec(x, n); }
     else if (!strcmp(op, "Reverse"))  { double *r = malloc(8*n + 8); esl_vec_DReverse(x, r, n); out_dvec(r, n); free(r); }
     else if (!strcmp(op, "ReverseInPlace")) { esl_vec_DReverse(x, x, n); out_dvec(x, n); }
+    else if (!strcmp(op, "Set"))      { esl_vec_DSet(x, n, sd); out_dvec(x, n); }
+    else if (!strcmp(op, "Copy"))     { double *r = malloc(8*n + 8); esl_vec_DCopy(x, n, r); out_dvec(r, n); free(r); }
+    else if (!strcmp(op, "Swap"))     { double *r = malloc(16*n + 8); esl_vec_DSwap(x, y, n); memcpy(r, x, 8*n); memcpy(r + n, y, 8*n); out_dvec(r, 2*n); free(r); }
     else if (!strcmp(op, "Scale"))    { esl_vec_DScale(x, n, sd); out_dvec(x, n); }
     else if (!strcmp(op, "Increment")){ esl_vec_DIncrement(x, n, sd); out_dvec(x, n); }
     else if (!strcmp(op, "Add"))      { esl_vec_DAdd(x, y, n); out_dvec(x, n); }
@@ -368,6 +371,9 @@ static void op_vec(void)
     else if (!strcmp(op, "Reverse"))  { float *r = malloc(4*n + 4); esl_vec_FReverse(x, r, n); out_fvec(r, n); free(r); }
     else if (!strcmp(op, "ReverseInPlace")) { esl_vec_FReverse(x, x, n); out_fvec(x, n); }
     else if (!strcmp(op, "CDFInPlace")) { esl_vec_FCDF(x, n, x); out_fvec(x, n); }
+    else if (!strcmp(op, "Set"))      { esl_vec_FSet(x, n, sf); out_fvec(x, n); }
+    else if (!strcmp(op, "Copy"))     { float *r = malloc(4*n + 4); esl_vec_FCopy(x, n, r); out_fvec(r, n); free(r); }
+    else if (!strcmp(op, "Swap"))     { float *r = malloc(8*n + 4); esl_vec_FSwap(x, y, n); memcpy(r, x, 4*n); memcpy(r + n, y, 4*n); out_fvec(r, 2*n); free(r); }
     else if (!strcmp(op, "Scale"))    { esl_vec_FScale(x, n, sf); out_fvec(x, n); }
     else if (!strcmp(op, "Increment")){ esl_vec_FIncrement(x, n, sf); out_fvec(x, n); }
     else if (!strcmp(op, "Add"))      { esl_vec_FAdd(x, y, n); out_fvec(x, n); }
@@ -402,6 +408,9 @@ static void op_vec(void)
     else if (!strcmp(op, "SortDecreasing")) { esl_vec_ISortDecreasing(x, n); h_out("ok %s", h_hex(x, 4*n)); }
     else if (!strcmp(op, "Reverse"))  { int *r = malloc(4*n + 4); esl_vec_IReverse(x, r, n); h_out("ok %s", h_hex(r, 4*n)); free(r); }
     else if (!strcmp(op, "ReverseInPlace")) { esl_vec_IReverse(x, x, n); h_out("ok %s", h_hex(x, 4*n)); }
+    else if (!strcmp(op, "Set"))      { esl_vec_ISet(x, n, (int) h_argi("k", 1)); h_out("ok %s", h_hex(x, 4*n)); }
+    else if (!strcmp(op, "Copy"))     { int *r = malloc(4*n + 4); esl_vec_ICopy(x, n, r); h_out("ok %s", h_hex(r, 4*n)); free(r); }
+    else if (!strcmp(op, "Swap"))     { int *r = malloc(8*n + 4); esl_vec_ISwap(x, y, n); memcpy(r, x, 4*n); memcpy(r + n, y, 4*n); h_out("ok %s", h_hex(r, 8*n)); free(r); }
     else if (!strcmp(op, "Scale"))    { esl_vec_IScale(x, n, (int) h_argi("k", 1)); h_out("ok %s", h_hex(x, 4*n)); }
     else if (!strcmp(op, "Increment")){ esl_vec_IIncrement(x, n, (int) h_argi("k", 1)); h_out("ok %s", h_hex(x, 4*n)); }
     else if (!strcmp(op, "Add"))      { esl_vec_IAdd(x, y, n); h_out("ok %s", h_hex(x, 4*n)); }
@@ -421,6 +430,9 @@ static void op_vec(void)
     else if (!strcmp(op, "SortDecreasing")) { esl_vec_LSortDecreasing(x, n); h_out("ok %s", h_hex(x, 8*n)); }
     else if (!strcmp(op, "Reverse"))  { int64_t *r = malloc(8*n + 8); esl_vec_LReverse(x, r, n); h_out("ok %s", h_hex(r, 8*n)); free(r); }
     else if (!strcmp(op, "ReverseInPlace")) { esl_vec_LReverse(x, x, n); h_out("ok %s", h_hex(x, 8*n)); }
+    else if (!strcmp(op, "Set"))      { esl_vec_LSet(x, n, h_argi("k", 1)); h_out("ok %s", h_hex(x, 8*n)); }
+    else if (!strcmp(op, "Copy"))     { int64_t *r = malloc(8*n + 8); esl_vec_LCopy(x, n, r); h_out("ok %s", h_hex(r, 8*n)); free(r); }
+    else if (!strcmp(op, "Swap"))     { int64_t *r = malloc(16*n + 8); esl_vec_LSwap(x, y, n); memcpy(r, x, 8*n); memcpy(r + n, y, 8*n); h_out("ok %s", h_hex(r, 16*n)); free(r); }
     else if (!strcmp(op, "Scale"))    { esl_vec_LScale(x, n, h_argi("k", 1)); h_out("ok %s", h_hex(x, 8*n)); }
     else if (!strcmp(op, "Increment")){ esl_vec_LIncrement(x, n, h_argi("k", 1)); h_out("ok %s", h_hex(x, 8*n)); }
     else if (!strcmp(op, "Add"))      { esl_vec_LAdd(x, y, n); h_out("ok %s", h_hex(x, 8*n)); }
